@@ -112,6 +112,8 @@ let do_apply f line =
 
 (* ---------- reduce *)
 let planted : (string, term) Hashtbl.t = Hashtbl.create 1024
+let planted_head : (string, unit) Hashtbl.t = Hashtbl.create 1024
+let nf_results : (string, string * string) Hashtbl.t = Hashtbl.create 4096
 
 let do_reduce f line =
   match f with
@@ -119,7 +121,7 @@ let do_reduce f line =
       let o = order_of_string os and limit = int_of_string ls and t = parse_term ts in
       if String.length rs >= 5 && String.sub rs 0 5 = "panic" then begin
         fail "oracle:C01:panic" "implementation panicked" line;
-        if Hashtbl.mem planted ts then fail "oracle:C07:panic" "" line
+        if Hashtbl.mem planted ts || Hashtbl.mem planted_head ts then fail "oracle:C07:panic" "" line
       end else begin
         let t' = parse_term rs and c = int_of_string cs in
         (* correspondence with the model of reduction.rs *)
@@ -168,6 +170,19 @@ let do_reduce f line =
              if c < limit && (o = APP || o = HAP) && not (term_eqb t' nf) then
                fail "oracle:C06:eager-result" ("expected=" ^ ser nf) line
          | None -> ());
+        (* C07: terms with a head normal form: CBN / HSP must return a (weak) head normal form *)
+        if limit = 0 && Hashtbl.mem planted_head ts then begin
+          (match o with
+           | CBN -> if not (whnfb t') then fail "oracle:C07:whnf" "" line
+           | HSP -> if not (hnfb t') then fail "oracle:C07:hnf" "" line
+           | _ -> ())
+        end;
+        (* C06: normalising orders that both terminate leave the identical term *)
+        if limit = 0 && (o = NOR || o = HNO || o = APP || o = HAP) then begin
+          (match Hashtbl.find_opt nf_results ts with
+           | Some (o2, r2) -> if r2 <> rs then fail "oracle:C06:orders-disagree" (Printf.sprintf "%s returned %s" o2 r2) line
+           | None -> Hashtbl.replace nf_results ts (os, rs))
+        end;
         if c > 0 then note_nontrivial ("reduce " ^ os ^ " " ^ ts);
         bump counts ("reduce-" ^ os);
         if limit <> 0 && c = limit then bump counts "reduce-hit-limit";
@@ -369,6 +384,7 @@ let () =
           | "reduce" :: r -> do_reduce r line
           | "history" :: r -> bump counts "history"; do_history r line
           | "planted" :: [t; nf] -> bump counts "planted"; Hashtbl.replace planted t (parse_term nf)
+          | "planted-head" :: [t; _] -> bump counts "planted-head"; Hashtbl.replace planted_head t ()
           | "pred" :: r -> bump counts "pred"; do_pred r line
           | "iso" :: r -> bump counts "iso"; do_iso r line
           | "acc" :: r -> bump counts "acc"; do_acc r line
